@@ -1,8 +1,11 @@
 #!/bin/bash
-# usage: try_mutant.sh <patch.diff> <property-id>... ; applies the patch to /repo, runs the checks, reverts
-p=$1; shift
+# usage: try_mutant.sh <patch.diff> <property-id>... ; applies the patch to /repo, runs the checks, reverts.
+# The evidence files (rewritten by every check run) are put back afterwards: committed evidence comes from clean runs only.
+p=$(readlink -f "$1"); shift
 cd /repo || exit 2
 if [ -n "$(git status --porcelain)" ]; then echo "/repo not clean"; exit 2; fi
-git apply $p || { echo "patch does not apply to /repo"; exit 1; }
+git apply "$p" || { echo "patch does not apply to /repo"; exit 1; }
+sav=$(mktemp -d); cp -a /verif/evidence/. "$sav"/
 for id in "$@"; do (cd /verif && ./check $id 2>&1 | grep -E 'VIOLATION|KNOWN|violations;' | cut -c1-260); done
-git checkout -- . 
+git checkout -- .
+cp -a "$sav"/. /verif/evidence/; rm -rf "$sav"
